@@ -183,6 +183,12 @@ func check(c Case) ev.Verdict {
 	default:
 		v.Classes = append(v.Classes, "over-limit")
 	}
+	if c.Via == "option" {
+		if err := reuseOptions(c, got); err != nil {
+			v.Err = err
+			return v
+		}
+	}
 	if want.OK() {
 		if got.err != nil {
 			v.Err = fmt.Errorf("total stays within the limit %d (reference totals lo=%d) but Apply failed: %v", c.Limit, freeTotal(doc, ops, c.Esc), got.err)
@@ -204,6 +210,34 @@ func check(c Case) ev.Verdict {
 	return v
 }
 
+// reuseOptions: one ApplyOptions value used for a failing call (the same patch
+// followed by a test that cannot pass, so that its copies run first) and then
+// for the case's own patch must give what fresh options give: the total is
+// per call, not per options value.
+func reuseOptions(c Case, fresh outcome) error {
+	var again outcome
+	pn := ev.Safe(func() {
+		o := lib.Options{Neg: true, Esc: c.Esc, Limit: c.Limit}.JP()
+		p, err := jp.DecodePatch([]byte(c.Patch))
+		if err != nil {
+			return
+		}
+		poison, err := jp.DecodePatch([]byte(c.Patch[:len(c.Patch)-1] + `,{"op":"test","path":"","value":0}]`))
+		if err != nil {
+			poison, _ = jp.DecodePatch([]byte(`[{"op":"test","path":"","value":0}]`))
+		}
+		_, _ = poison.ApplyWithOptions([]byte(c.Doc), o)
+		again.out, again.err = p.ApplyWithOptions([]byte(c.Doc), o)
+	})
+	if pn != nil {
+		return pn
+	}
+	if (again.err == nil) != (fresh.err == nil) || string(again.out) != string(fresh.out) || (again.err != nil && again.err.Error() != fresh.err.Error()) {
+		return fmt.Errorf("the same ApplyOptions value reused after a failing call changes the outcome: %v / %s with fresh options, %v / %s after the failing call", fresh.err, fresh.out, again.err, again.out)
+	}
+	return nil
+}
+
 func freeTotal(doc *ref.V, ops []ref.Op, esc bool) int64 {
 	st := &ref.State{Root: doc.Clone()}
 	for _, op := range ops {
@@ -213,6 +247,174 @@ func freeTotal(doc *ref.V, ops []ref.Op, esc bool) int64 {
 	}
 	return st.Lo
 }
+
+// ---------- any spelling: sizes measured in the output ----------
+
+// SCase: document and patch in any spelling. The limit is placed relative to
+// the measured running totals by the check itself (LimitAt selects a copy,
+// Delta the offset), so that the case stays meaningful when replayed.
+type SCase struct {
+	Legacy  bool   `json:"legacy,omitempty"` // staged root package, limit through its package variable
+	Doc     string `json:"doc"`
+	Patch   string `json:"patch"`
+	Esc     bool   `json:"escape_html"`
+	LimitAt int    `json:"limit_at_copy"`
+	Delta   int    `json:"limit_delta"`
+}
+
+// applyLegacy runs the staged root package with its package-level limit.
+func applyLegacy(doc, patch string, o lib.Options) (r lib.Res) {
+	r.Panic = ev.Safe(func() {
+		p, err := jl.DecodePatch([]byte(patch))
+		if err != nil {
+			r.DecodeErr = err
+			return
+		}
+		old := jl.AccumulatedCopySizeLimit
+		jl.AccumulatedCopySizeLimit = o.Limit
+		defer func() { jl.AccumulatedCopySizeLimit = old }()
+		r.Out, r.Err = p.Apply([]byte(doc))
+	})
+	return r
+}
+
+func drawSpelled(legacy bool) func(t *rapid.T) SCase {
+	return func(t *rapid.T) SCase { return drawSpelled1(t, legacy) }
+}
+
+func drawSpelled1(t *rapid.T, legacy bool) SCase {
+	doc := gen.Default.Root().Draw(t, "doc")
+	esc := legacy || rapid.Bool().Draw(t, "esc")
+	g := gen.NewOpGen(true)
+	g.NearMiss, g.TestMismatch = 0, 0
+	g.Kinds = []string{"copy", "copy", "copy", "copy", "add", "remove", "replace", "move", "test"}
+	if legacy {
+		g.NoRootOps = true
+		g.Legacy = true
+		g.Kinds = []string{"copy", "copy", "copy", "copy", "add", "remove", "replace", "move"}
+	}
+	ro := ref.Opts{Neg: true, Esc: esc}
+	st := &ref.State{Root: doc.Clone()}
+	var ops []ref.Op
+	n := gen.Uniform(t, 1, 7, "nops")
+	for i := 0; i < n; i++ {
+		op := g.Next(t, st.Root, i)
+		trial := &ref.State{Root: st.Root.Clone(), Lo: st.Lo, Hi: st.Hi}
+		if r := ref.Step(trial, op, ro); r.Cause != ref.COK {
+			continue
+		}
+		st = trial
+		ops = append(ops, op)
+	}
+	c := SCase{Legacy: legacy, Esc: esc, LimitAt: gen.Uniform(t, 0, 5, "at"), Delta: gen.Uniform(t, -2, 2, "delta")}
+	// spelling: whitespace and alternative escapes, or the other setting's spelling of <, >, &
+	switch gen.Uniform(t, 0, 3, "sp") {
+	case 0:
+		c.Doc, c.Patch = doc.Text(!esc), ref.OpsText(ops, !esc)
+	case 1:
+		c.Doc, c.Patch = gen.Spell(t, doc, "sd"), ref.OpsText(ops, esc)
+	default:
+		c.Doc, c.Patch = gen.Spell(t, doc, "sd"), gen.Spell(t, ref.OpsTree(ops), "sp")
+	}
+	return c
+}
+
+func checkSpelled(c SCase) ev.Verdict {
+	o := lib.Options{Neg: true, Esc: c.Esc}
+	apply := lib.Apply
+	if c.Legacy {
+		if !c.Esc {
+			return ev.Excluded("the legacy package always escapes HTML")
+		}
+		apply = applyLegacy
+		if _, lops, why := lib.ParseCase(c.Doc, c.Patch); why == "" {
+			for _, op := range lops {
+				if op.Op == "test" || op.Path == "" || (op.Op == "copy" && op.From == "") {
+					return ev.Excluded("operation outside the legacy package's claims")
+				}
+			}
+		}
+	}
+	lo, hi, n, why, err := lib.CopyTotals(c.Doc, c.Patch, o, apply)
+	if why != "" {
+		return ev.Excluded(why)
+	}
+	_, ops, _ := lib.ParseCase(c.Doc, c.Patch)
+	if n < len(ops) {
+		return ev.Excluded("an operation is inapplicable for another reason (C08)")
+	}
+	if err != nil {
+		return ev.Verdict{Err: err}
+	}
+	var copyIdx []int
+	for i, op := range ops {
+		if op.Op == "copy" {
+			copyIdx = append(copyIdx, i)
+		}
+	}
+	if len(copyIdx) == 0 {
+		return ev.Excluded("no copy operation")
+	}
+	k := copyIdx[((c.LimitAt%len(copyIdx))+len(copyIdx))%len(copyIdx)]
+	limit := lo[k] + int64(c.Delta)
+	if limit < 1 {
+		limit = 1
+	}
+	// expectation from the measured totals
+	failAt := -1
+	for _, i := range copyIdx {
+		if lo[i] > limit {
+			failAt = i
+			break
+		}
+		if hi[i] > limit {
+			return ev.Excluded("copy limit falls inside the null-size interval")
+		}
+	}
+	o.Limit = limit
+	got := apply(c.Doc, c.Patch, o)
+	if got.Panic != nil {
+		return ev.Verdict{Err: got.Panic}
+	}
+	if got.DecodeErr != nil {
+		return ev.Fail("DecodePatch rejected the patch: %v", got.DecodeErr)
+	}
+	var ace *jp.AccumulatedCopySizeError
+	var lace *jl.AccumulatedCopySizeError
+	isAce := errors.As(got.Err, &ace) || errors.As(got.Err, &lace)
+	canonical := false
+	if d, err := ref.Parse([]byte(c.Doc)); err == nil && d.Text(c.Esc) == c.Doc && ref.OpsText(ops, c.Esc) == c.Patch {
+		canonical = true
+	}
+	v := ev.Verdict{Classes: []string{fmt.Sprintf("esc=%v", c.Esc), fmt.Sprintf("copies=%d", min(len(copyIdx), 4)), fmt.Sprintf("canonical-spelling=%v", canonical)}}
+	v.NonTrivial = len(copyIdx) >= 2 && !canonical
+	if failAt < 0 {
+		v.Classes = append(v.Classes, "within-limit")
+		if got.Err != nil {
+			v.Err = fmt.Errorf("the copied values measure %d bytes in the output (compact, EscapeHTML=%v), within the limit %d, but Apply failed: %v", lo[len(lo)-1], c.Esc, limit, got.Err)
+		}
+		return v
+	}
+	v.Classes = append(v.Classes, "over-limit")
+	if !isAce {
+		v.Err = fmt.Errorf("after operation %d the copied values measure %d bytes in the output (compact, EscapeHTML=%v), over the limit %d, but Apply returned %v / %s", failAt, lo[failAt], c.Esc, limit, got.Err, got.Out)
+		return v
+	}
+	if got.Out != nil {
+		v.Err = fmt.Errorf("a patch stopped by the limit returned a document: %s", got.Out)
+	}
+	return v
+}
+
+var spelledUnit = ev.Unit[SCase]{
+	Name: "any-spelling",
+	Rule: "document and patch in ANY spelling (insignificant whitespace, alternative escapes, <, >, & spelled the other setting's way) x 1-7 applicable operations with ~45% copies x EscapeHTML; oracle without a spelling model: each copy's size is the length of the copied value's text in the output of the patch prefix ending at that copy, applied with the limit disabled (value located where the reference evaluator put it; a null counts 0..4); the limit is then set to a running total +-2 and Apply must fail with *AccumulatedCopySizeError and no document exactly when a measured total exceeds it; non-trivial = >=2 copies and a spelling other than the encoder's own",
+	Draw: drawSpelled(false), Check: checkSpelled,
+}
+var spelledLegacyUnit = ev.Unit[SCase]{Name: "any-spelling-legacy", Rule: "staged legacy root package, limit through its package variable, no test and no root operations: " + spelledUnit.Rule, Draw: drawSpelled(true), Check: checkSpelled}
+
+func TestPropSpelled(t *testing.T)       { ev.RunProp(t, "C12", spelledUnit) }
+func TestPropSpelledLegacy(t *testing.T) { ev.RunProp(t, "C12", spelledLegacyUnit) }
 
 const rule = "document and patch in the encoder's own spelling (strings with <, >, &, U+2028, nested containers, nulls) x 1-7 applicable operations with ~45% copies mixed with the other kinds x limit drawn from {0} and the interval +-2 around a running total x EscapeHTML; oracle: reference running total = sum of the canonical sizes of the copied values (a copied null counts 0..4 and a limit inside that interval is excluded): over the limit => *AccumulatedCopySizeError and nil document, within => success and the reference document, limit 0 => never; non-trivial = >=2 copies and a positive limit within +-2 of a running total"
 
@@ -227,5 +429,5 @@ func TestPropV5Def(t *testing.T)  { ev.RunProp(t, "C12", v5defUnit) }
 func TestPropLegacy(t *testing.T) { ev.RunProp(t, "C12", legacyUnit) }
 func TestReplay(t *testing.T) {
 	r := optUnit.Replayer() // all three units share the case type and check
-	ev.Replay(t, map[string]ev.Replayer{optUnit.Name: r, v5defUnit.Name: r, legacyUnit.Name: r})
+	ev.Replay(t, map[string]ev.Replayer{optUnit.Name: r, v5defUnit.Name: r, legacyUnit.Name: r, spelledUnit.Name: spelledUnit.Replayer(), spelledLegacyUnit.Name: spelledUnit.Replayer()})
 }
